@@ -24,7 +24,8 @@
     A turn that changed something on a STALE view whose write-back changes nothing on the server (the same content was
     written before) makes NO version: the server answers with the version it holds (`noop` in `work`; found by the tie).
     NOT modelled: the closing patch of a release on a stale view (merge-patch first: its JSON-patch tests the fresh
-    answer; taken as accepted); `constPatch` on a stale view (`application.apply` takes the answer's newer version for a change).
+    answer; taken as accepted). `constPatch` on a stale view: GLUE 7 in `turn` (with a constant patch the finalizer's JSON-patch tests
+    the merge-patch's fresh answer and is NOT refused on a stale view: `finConflict` is right for `constPatch = false` only).
 
   GLUE 3 (which of C03's turns). C07's `process` decides from (deadline, clock, pressure, next arrival) whether the
     changing stage runs. ran / not required → `loopStep` on the view — at the deadline when the barrier slept it out,
@@ -194,15 +195,23 @@ def turn (env : C03.Env) (r : RState E) (ev : Ev E) (rest : List (Ev E)) : Turn 
   let it := iter0 env r ev rest t0
   let w1 := C07.arrive r.w it.ver
   let o := C07.process w1.deadline it
-  let sv' := turnOf env r.carried w1.deadline o ev.ver r.rv (rest.head?.map (·.at_)) sv
+  let sv0 := turnOf env r.carried w1.deadline o ev.ver r.rv (rest.head?.map (·.at_)) sv
+  -- GLUE 7 (`constPatch` on a STALE view): the cycle's patch has content that changes nothing (an on.event handler's constant);
+  -- when C03's turn changed nothing else on the view, that patch is the only request: the server makes no version and answers with
+  -- the NEWER version it holds, `application.apply` takes "answered ≠ seen" for a change: no sleep, no touch; the worker is handed
+  -- that version (and arms on it). Held back or not; not in a turn dedicated to the finalizer / on a blind or gone object.
+  let constStale := env.constPatch && decide (ev.ver ≠ r.rv) && it.required && r.carried == .none &&
+    !objDiffers (C03.ids env) (objOfS sv) (objOfS sv0) && !(sv0.gone && !sv.gone)
+  let sv' : C03.State E :=
+    if constStale then { sv0 with pending := false, now := o.left + env.rtt, writes := sv.writes + C03.cp env } else sv0
   let tret := if sv'.now < t0 then t0 else sv'.now
   -- GLUE 1: an event of its own follows / the object was released: ONE new version — unless (GLUE 2) the turn changed
   -- something ON ITS VIEW and writing that back changes NOTHING on the server (a stale view whose change was written
   -- before): the API server makes no version for a no-op PATCH and answers with the version it holds
   let released := sv'.gone && !sv.gone
   let srv' := writeBack r.srv sv sv'
-  let noop := sv'.pending && objDiffers (C03.ids env) (objOfS sv) (objOfS sv') &&
-    !objDiffers (C03.ids env) r.srv srv' && !released
+  let noop := (sv'.pending && objDiffers (C03.ids env) (objOfS sv) (objOfS sv') &&
+    !objDiffers (C03.ids env) r.srv srv' && !released) || constStale
   let echo := sv'.pending && !noop
   { it := it, o := o, sv := sv, sv' := sv', tret := tret, srv' := srv', released := released, noop := noop, echo := echo,
     wrote := echo || released }
